@@ -93,6 +93,9 @@ def run(eng, rep) -> None:
                     rebound = [b for b in defs.values(a_gen.id)]
                     rep.check(same and not rebound, "R10.1", file, fn, "verify(%s) / gen(%s)" % (a_ver.id, a_gen.id),
                               "the object verified is the object generated from", "the schema passed to gen is not the one that was verified (different name or rebound)")
+    # the verdict is recomputed on every call (no memoised verdicts / check results)
+    from .C09 import stateless, verification_path
+    stateless(eng, rep, "R10.1", verification_path(eng))
     # registration dominates verification, on the same verifier object
     for vs in verify_sites:
         vnode = cfg.stmt_node_containing(vs.node)
@@ -273,21 +276,27 @@ def r103_gen(eng, rep, gen: FuncInfo, generates: List[FuncInfo]) -> None:
         raise AnalysisError("anchor vanished: fcp.codegen._handle_file")
     pv = Provenance(hf.node)
     pname = hf.params[0].arg
-    writes = fs_mutations(eng, hf)
-    wt = [s for s, w in writes if isinstance(s.func, ast.Attribute) and s.func.attr in ("write_text", "write_bytes")]
-    if not wt:
+    sinks = write_sinks(eng, hf)
+    if not sinks:
         rep.undecided("R10.3", hf.file, hf.qual, "write of contents", "writer idiom not recognised")
-    for s in wt:
-        recv = pv.of(s.func.value)
-        arg = pv.of(s.args[0]) if s.args else set()
+    for path_e, cont_e, trunc, site in sinks:
+        recv = pv.of(path_e) if path_e is not None else set()
+        arg = pv.of(cont_e) if cont_e is not None else set()
         ok_path = any(a.startswith("%s['path']" % pname) for a in recv) and not any(a.startswith(pname) and not a.startswith("%s['path']" % pname) for a in recv)
         ok_cont = any(a.startswith("%s['contents']" % pname) for a in arg) and not any(a.startswith(pname) and not a.startswith("%s['contents']" % pname) for a in arg)
-        rep.check(ok_path, "R10.3", hf.file, hf.qual, norm(s.func.value) + " <- path", "written path derives from result['path'] only: " + ",".join(sorted(recv)),
+        rep.check(ok_path, "R10.3", hf.file, hf.qual, norm(path_e, 50) + " <- path", "written path derives from result['path'] only: " + ",".join(sorted(recv)),
                   "the path written does not derive from the record's 'path' only: " + ",".join(sorted(recv)))
-        rep.check(ok_cont, "R10.3", hf.file, hf.qual, norm(s) + " <- contents", "written bytes derive from result['contents'] only",
+        rep.check(ok_cont, "R10.3", hf.file, hf.qual, norm(site, 60) + " <- contents", "written bytes derive from result['contents'] only",
                   "the bytes written do not derive from the record's 'contents' only: " + ",".join(sorted(arg)))
+        if trunc is True:
+            rep.ok("R10.3", hf.file, hf.qual, norm(site, 60) + " truncates", "an existing file is replaced, not overlaid")
+        elif trunc is False:
+            rep.violation("R10.3", hf.file, hf.qual, norm(site, 60), "the file is opened without truncation: a longer pre-existing file keeps its old tail, so the file on disk is not the returned contents")
+        else:
+            rep.undecided("R10.3", hf.file, hf.qual, norm(site, 60), "cannot tell whether the open truncates")
     # exactly one write per record on every path of _handle_file
     cfgh = eng.cfg(hf)
+    wt = [site for _, _, _, site in sinks]
     if wt:
         wn = {cfgh.stmt_node_containing(s) for s in wt} - {None}
         reach_exit_without = cfgh.exit in cfgh.reachable_avoiding(cfgh.entry, wn)
@@ -330,6 +339,66 @@ def r103_gen(eng, rep, gen: FuncInfo, generates: List[FuncInfo]) -> None:
             rep.ok("R10.3", g.file, g.qual, "return <list>", "all records (and all exceptions) are produced before the first write")
         else:
             rep.undecided("R10.3", g.file, g.qual, "return value of generate", "cannot classify the returned iterable as eager")
+
+
+def write_sinks(eng, hf: FuncInfo):
+    """(path expr, content expr, truncates?, site call) for the recognised writer idioms."""
+    out = []
+    defs = Defs(hf.node)
+    fds = {}    # name -> (path expr, truncates?) for os.open results
+    files = {}  # name -> (path expr, truncates?) for file objects
+
+    def mode_trunc(mode):
+        if mode is None:
+            return None
+        if isinstance(mode, ast.Constant) and isinstance(mode.value, str):
+            m = mode.value
+            if m.startswith("w") or m.startswith("x"):
+                return True
+            return False if (m.startswith("a") or m.startswith("r")) else None
+        return None
+
+    def flags_trunc(flags):
+        names = {dotted(x).split(".")[-1] for x in ast.walk(flags) if isinstance(x, (ast.Name, ast.Attribute)) and dotted(x)}
+        if "O_TRUNC" in names or ("O_EXCL" in names and "O_CREAT" in names):
+            return True
+        if names & {"O_WRONLY", "O_RDWR", "O_CREAT", "O_APPEND"}:
+            return False
+        return None
+
+    for n in walk_local(hf.node):
+        if isinstance(n, ast.Call) and isinstance(n.func, ast.Attribute) and n.func.attr in ("write_text", "write_bytes") and n.args:
+            out.append((n.func.value, n.args[0], True, n))
+    binds = []
+    for n in walk_local(hf.node):
+        if isinstance(n, ast.Assign) and isinstance(n.targets[0], ast.Name) and isinstance(n.value, ast.Call):
+            binds.append((n.targets[0].id, n.value))
+        if isinstance(n, (ast.With, ast.AsyncWith)):
+            for it in n.items:
+                if isinstance(it.optional_vars, ast.Name) and isinstance(it.context_expr, ast.Call):
+                    binds.append((it.optional_vars.id, it.context_expr))
+    for name, c in binds:
+        d = dotted(c.func) or ""
+        if d in ("os.open",) and len(c.args) >= 2:
+            fds[name] = (c.args[0], flags_trunc(c.args[1]))
+        elif d in ("open", "io.open", "codecs.open") and c.args:
+            mode = c.args[1] if len(c.args) > 1 else next((k.value for k in c.keywords if k.arg == "mode"), None)
+            files[name] = (c.args[0], mode_trunc(mode) if mode is not None else False)
+        elif isinstance(c.func, ast.Attribute) and c.func.attr == "open":
+            mode = c.args[0] if c.args else next((k.value for k in c.keywords if k.arg == "mode"), None)
+            files[name] = (c.func.value, mode_trunc(mode) if mode is not None else False)
+    for name, c in binds:
+        d = dotted(c.func) or ""
+        if d == "os.fdopen" and c.args and isinstance(c.args[0], ast.Name) and c.args[0].id in fds:
+            files[name] = fds[c.args[0].id]
+    for n in walk_local(hf.node):
+        if isinstance(n, ast.Call) and isinstance(n.func, ast.Attribute) and n.func.attr in ("write", "writelines") and isinstance(n.func.value, ast.Name) and n.func.value.id in files and n.args:
+            pe, tr = files[n.func.value.id]
+            out.append((pe, n.args[0], tr, n))
+        if isinstance(n, ast.Call) and dotted(n.func) == "os.write" and len(n.args) == 2 and isinstance(n.args[0], ast.Name) and n.args[0].id in fds:
+            pe, tr = fds[n.args[0].id]
+            out.append((pe, n.args[1], tr, n))
+    return out
 
 
 def classify_eager(v: ast.AST, defs: Defs, depth: int = 0) -> str:
